@@ -2,7 +2,7 @@
 import copy
 import json
 
-from .. import dl, engine_tie, gen_dl, lib, prog
+from .. import c07_gen, dl, engine_tie, gen_dl, lib, prog
 
 PROP = "C06"
 PROP_FILE = "Props/C06.v"
@@ -106,6 +106,12 @@ def gen_cases(tier, seed):
         opts = dict(exprs=False, p_clause=1.0, p_clause_cond=0.0, p_leading_binder=0.0, p_binder_join=0.0) if pure else {}
         p = gen_dl.gen_program(rng, opts)
         inputs = [gen_dl.gen_input(rng, p["rels"], style=rng.choice(["small", "mixed", "sparse_chain"]))[0] for _ in range(2)]
+        if i % 3 == 1:
+            # a variable of the first clause repeated (adjacent or not) inside the second clause, with the two relations very unequal in
+            # size both ways: the result must not depend on which of the two clauses the generated code iterates (clause order, sizes)
+            jr = c07_gen.add_join_repeat(rng, p)
+            if jr:
+                inputs = c07_gen.join_repeat_inputs(rng, p, jr)[:2]
         cases.append(dict(id="c06_%d" % i, prog=p, inputs=inputs, pure=pure, variants=variants(rng, p, inputs, pure)))
     return cases
 
